@@ -53,6 +53,9 @@ def plan(cases, quick, seed):
                         mkeys = ['bytes', 'str'] if fam == 'msgpack' and (not quick or (i // 2 + n // 2) % 3 == 0) else ['bytes']
                         for mkey in mkeys:
                             jobs.append((i, cfg, validator, form, mkey))
+                    if fam in D.PACKED and base['ca'] == 'dict' and base['iw'] and c['id'] in ('D1', 'T1', 'T3', 'T4') and (not quick or (i + n) % 3 == 0):
+                        # the same request with every text (and every beyond-64-bit integer) sent as bin: how the server itself writes them
+                        jobs.append((i, dict(cfg, rawas='bin'), validator, 'map', 'bytes'))
     return jobs
 
 
